@@ -37,7 +37,7 @@ def plan(tier, seed):
         "timeout_s": 300 if tier == "quick" else 3000,
         "rule": "case = namespace history: 3..40 interleaved add_namespace / set_default_namespace / valid_qualified_name / "
                 "bundle() operations on a document and up to 3 bundles (80% of cases), or a c01 API program followed by exports "
-                "(20%); all under the usage discipline (a scope's default namespace is bound once). distinct = canonical hash of "
+                "(20%); one case in 997 is a churn case (names kept from 20 dead documents asked of 120 fresh ones); all under the usage discipline (a scope's default namespace is bound once). distinct = canonical hash of "
                 "the operation list; non-trivial = at least one name was handed out and clause (c) was re-evaluated at least once",
         "assumptions": [
             "usage discipline of the quantifier: a scope's default namespace is not re-bound after it was set, adopted, or "
@@ -114,6 +114,8 @@ def make_history(r):
 
 def make_case(ctx, idx):
     r = case_rng(ctx.seed, ID, idx)
+    if idx % 997 == 5:
+        return {"mode": "churn", "seed": r.randrange(2 ** 30), "ops": ["churn", idx]}
     if r.random() < 0.8:
         return {"mode": "history", "ops": make_history(r)}
     ops = gen.Gen(r, gen.profile("c01")).program()
@@ -189,9 +191,67 @@ def run_history(ctx, idx, case):
     return st, reports, hub.counts["NS.c_checks"] - before, hub.counts["NS.names_handed_out"] - handed
 
 
+def run_churn(ctx, idx, case):
+    """Names outlive their documents: an application keeps the names that a few documents handed out, the documents die and are
+    collected, and many fresh documents -- kept alive together, so that they spread over whatever memory the dead ones left -- are asked
+    for those names.  The same clauses, judged by the same monitor at the same hooks."""
+    import gc
+    import random
+    hub = ctx.hub
+    r = random.Random(case["seed"])
+    kept = []
+    mine = []
+
+    def harvest(i, op, out, res, st):
+        if op[0] == "vqn" and out == "ok" and res is not None:
+            mine.append(res)
+
+    for _ in range(20):
+        del mine[:]
+        interp.run(make_history(r), harvest, use_pool=False)
+        kept.extend(r.sample(mine, min(len(mine), 6)))      # a few names of every document
+    del mine[:]
+    hub.drain()
+    gc.collect()
+    before = hub.counts["NS.c_checks"]
+    handed = hub.counts["NS.names_handed_out"]
+    reports = []
+    alive = []
+    for j in range(120):
+        ops = []
+        x = r.random()
+        if x < 0.4:
+            ops.append(["dns", "D", r.choice(URIS)])
+        elif x < 0.8:
+            ops.append(["ns", "D", r.choice(PFX), r.choice(URIS)])
+        alive.append(interp.run(ops, use_pool=False))
+    st = alive[0]
+    for j, st in enumerate(alive):
+        for name in (kept if j % 8 == 0 else r.sample(kept, min(len(kept), 10))):
+            try:
+                st.doc.valid_qualified_name(name)
+                ctx.count("churn.kept_name_asked_of_a_fresh_document")
+            except pm.ProvException:
+                ctx.count("churn.refused")
+        monitors.ns_full_check(st.doc)
+        for mon, what, wit in hub.drain():
+            if mon == "NS":
+                reports.append({"step": j, "op": ["a name kept from a dead document, asked of fresh document %d" % j], "what": what, "witness": wit})
+            else:
+                ctx.count("monitor_reports.%s" % mon)
+        if reports:
+            break
+    ctx.count("churn.fresh_documents", len(alive))
+    st.outcomes = []
+    return st, reports, hub.counts["NS.c_checks"] - before, hub.counts["NS.names_handed_out"] - handed
+
+
 def judge(ctx, idx, case):
     ctx.hub.context = {"check": ID, "idx": idx}
-    st, reports, cchecks, handed = run_history(ctx, idx, case)
+    if case["mode"] == "churn":
+        st, reports, cchecks, handed = run_churn(ctx, idx, case)
+    else:
+        st, reports, cchecks, handed = run_history(ctx, idx, case)
     ctx.count("mode.%s" % case["mode"])
     for ip in getattr(st, "intent_problems", []):
         reports.append({"step": 0, "op": ["docinit"], "what": "(b) " + ip, "witness": {"clause": "b", "at": "constructor"}})
@@ -249,6 +309,8 @@ def floors(counters, tier, extra):
         out.append("prefix clashes (renamed on add) seen only %d times" % counters.get("mon.NS.renamed_on_add", 0))
     if counters.get("mon.NS.monitor_errors", 0):
         out.append("the NS monitor itself raised %d times" % counters["mon.NS.monitor_errors"])
+    if counters.get("churn.kept_name_asked_of_a_fresh_document", 0) < need * 20:
+        out.append("names kept from dead documents were asked of fresh documents only %d times" % counters.get("churn.kept_name_asked_of_a_fresh_document", 0))
     if counters.get("op.dns.ok", 0) < need // 4 or counters.get("op.bundle.ok", 0) < need // 4:
         out.append("too few default-namespace settings or bundles in the histories")
     if tier == "thorough" and counters.get("suite.NS.c_checks", 0) < 1000:
@@ -263,7 +325,7 @@ LEVEL_TEXT = ("Exploration by runtime monitoring: an online monitor hooked on ad
               "generated namespace histories (document + bundles, clashing and generated-looking prefixes, equal URIs under several "
               "prefixes, URIs that are prefixes of each other, names as QualifiedName/'p:l'/bare/full URI) and of full API programs "
               "followed by exports; for those programs clause (c) is also evaluated over every name the records hold (identifiers, attribute "
-              "names, qualified-name values, literal datatypes), whether or not it ever passed through the hooked methods. The clauses are self-referential invariants of the trace, so no model of the renaming tables is "
+              "names, qualified-name values, literal datatypes), whether or not it ever passed through the hooked methods. Churn cases ask fresh documents for names that dead documents handed out. The clauses are self-referential invariants of the trace, so no model of the renaming tables is "
               "needed and a correct implementation that picks other prefixes cannot be flagged.")
 LEVEL_NOTE = ("Trusted: the monitor's own bookkeeping and the detached-copy probe. Histories are bounded (<= 40 operations, <= 4 scopes) "
               "and obey the quantifier's usage discipline; an unbounded 'always' is not decided, only the observed histories.")
